@@ -12,7 +12,7 @@
     No axioms. *)
 From Coq Require Import List NArith PArith Bool Arith Lia FMapPositive.
 From OxiVerif Require Import DD.Table DD.TableExtra DD.TableProofs DD.Build DD.BuildProofs DD.Apply DD.ApplyProofs
-  DD.ConfigApply DD.Tdd DD.ApplyTdd DD.ApplyTddBase DD.ApplyTddProofs DD.ApplyTddIte DD.ApplyTddTop
+  DD.Cache DD.CacheProofs DD.ConfigApply DD.Tdd DD.ApplyTdd DD.ApplyTddBase DD.ApplyTddProofs DD.ApplyTddIte DD.ApplyTddTop
   DD.TddAudit DD.TddAuditProofs Mgr.History Mgr.HistoryBase Mgr.OomGc Mgr.HistoryGc Mgr.TddHist Mgr.TddHistProofs.
 Import ListNotations.
 
@@ -346,3 +346,18 @@ Proof.
 Qed.
 
 End Sim.
+
+(** instance: the direct-mapped, lossy cache of oxidd-cache (DD/Cache.v) with ANY hash function,
+    bucket count and capacity (1, 2, 16, 65536, ...; a collection resets it) against a manager
+    without apply cache: the same histories get through and the final states are related *)
+Theorem thist_dm_cache_transparent : forall (gt1 gt2 : ref -> ref -> bool) (hash : dm_key -> N) nb cap n ops,
+  tops_pre_b gt1 dm_cache (dmr_get hash) (dmr_add hash) (dm_init nb cap) (tinit dm_cache (dm_init nb cap) n) ops = true ->
+  exists st1 st2,
+    trun gt1 dm_cache (dmr_get hash) (dmr_add hash) (dm_init nb cap) (tinit dm_cache (dm_init nb cap) n) ops = Some st1 /\
+    trun gt2 unit nc_get nc_add tt (tinit unit tt n) ops = Some st2 /\
+    tsim dm_cache unit (dmr_get hash) nc_get st1 st2.
+Proof.
+  intros gt1 gt2 hash nb cap n ops P.
+  apply (thist_config_independent gt1 gt2 dm_cache unit (dmr_get hash) (dmr_add hash) nc_get nc_add
+           (dm_init nb cap) tt (dmr_lossy hash) nc_lossy (dmr_get_init hash nb cap) (fun _ _ => eq_refl) n ops P).
+Qed.
